@@ -675,3 +675,135 @@ func RunHookOrder() HookEvent {
 	sort.Slice(ev.Mirror, func(i, j int) bool { return ev.Mirror[i] < ev.Mirror[j] })
 	return ev
 }
+
+// ---------------------------------------------------------------------------
+// Get is a snapshot: a Get(ALL) whose consumer is slow is in progress while one goroutine issues two installs one
+// after the other, W1 into a table that is dumped early and then W2 into a table that is dumped late. What the Get
+// returns must be the contents at one moment: the base, the base with W1, or the base with W1 and W2 - never W2 without W1.
+
+// SnapEvent is the record of one snapshot scenario.
+type SnapEvent struct {
+	Ev     string   `json:"ev"`
+	N      int      `json:"n"`
+	Base   []string `json:"base"`
+	W1     string   `json:"w1"`
+	W2     string   `json:"w2"`
+	Got    []string `json:"got"`
+	Failed string   `json:"failed"`
+}
+
+func snapKey(e *spb.AFTEntry) string {
+	switch {
+	case e.GetIpv4() != nil:
+		return "v4:" + e.GetIpv4().GetPrefix()
+	case e.GetIpv6() != nil:
+		return "v6:" + e.GetIpv6().GetPrefix()
+	case e.GetMpls() != nil:
+		return fmt.Sprintf("mpls:%d", e.GetMpls().GetLabelUint64())
+	case e.GetNextHopGroup() != nil:
+		return fmt.Sprintf("nhg:%d", e.GetNextHopGroup().GetId())
+	case e.GetNextHop() != nil:
+		return fmt.Sprintf("nh:%d", e.GetNextHop().GetIndex())
+	}
+	return "?"
+}
+
+func snapOp(id uint64, key string) *spb.AFTOperation {
+	op := &spb.AFTOperation{Id: id, NetworkInstance: "DEFAULT", Op: spb.AFTOperation_ADD}
+	kind, k, _ := strings.Cut(key, ":")
+	g := &wpb.UintValue{Value: 1}
+	switch kind {
+	case "v4":
+		op.Entry = &spb.AFTOperation_Ipv4{Ipv4: &aftpb.Afts_Ipv4EntryKey{Prefix: k, Ipv4Entry: &aftpb.Afts_Ipv4Entry{NextHopGroup: g}}}
+	case "v6":
+		op.Entry = &spb.AFTOperation_Ipv6{Ipv6: &aftpb.Afts_Ipv6EntryKey{Prefix: k, Ipv6Entry: &aftpb.Afts_Ipv6Entry{NextHopGroup: g}}}
+	case "mpls":
+		var l uint64
+		fmt.Sscan(k, &l)
+		op.Entry = &spb.AFTOperation_Mpls{Mpls: &aftpb.Afts_LabelEntryKey{Label: &aftpb.Afts_LabelEntryKey_LabelUint64{LabelUint64: l}, LabelEntry: &aftpb.Afts_LabelEntry{NextHopGroup: g}}}
+	case "nhg":
+		var i uint64
+		fmt.Sscan(k, &i)
+		op.Entry = &spb.AFTOperation_NextHopGroup{NextHopGroup: &aftpb.Afts_NextHopGroupKey{Id: i, NextHopGroup: &aftpb.Afts_NextHopGroup{
+			NextHop: []*aftpb.Afts_NextHopGroup_NextHopKey{{Index: 1, NextHop: &aftpb.Afts_NextHopGroup_NextHop{Weight: &wpb.UintValue{Value: 1}}}}}}}
+	case "nh":
+		var i uint64
+		fmt.Sscan(k, &i)
+		op.Entry = &spb.AFTOperation_NextHop{NextHop: &aftpb.Afts_NextHopKey{Index: i, NextHop: &aftpb.Afts_NextHop{IpAddress: &wpb.StringValue{Value: "192.0.2.7"}}}}
+	}
+	return op
+}
+
+// SnapVariants are the (W1, W2) pairs: W1's table is dumped before W2's (IPv4, IPv6, MPLS, groups, next-hops).
+var SnapVariants = [][2]string{{"v4:10.9.3.0/24", "nh:3"}, {"v6:2001:db8:93::/48", "nhg:3"}, {"mpls:1093", "nh:4"}, {"v4:10.9.4.0/24", "v6:2001:db8:94::/48"}, {"nhg:4", "nh:5"}}
+
+// RunSnap executes one snapshot scenario.
+func RunSnap(n int, v [2]string) SnapEvent {
+	ev := SnapEvent{Ev: "linsnap", N: n, Base: []string{}, W1: v[0], W2: v[1], Got: []string{}}
+	r := rib.New("DEFAULT")
+	var id uint64
+	for _, k := range []string{"nh:1", "nh:2", "nhg:1", "nhg:2", "v4:10.9.0.0/24", "v4:10.9.1.0/24", "v6:2001:db8:9::/48", "v6:2001:db8:91::/48", "mpls:1009", "mpls:1010"} {
+		id++
+		if _, fails, err := r.AddEntry("DEFAULT", snapOp(id, k)); err != nil || len(fails) != 0 {
+			ev.Failed = fmt.Sprintf("initial install of %s failed: %v %d", k, err, len(fails))
+			return ev
+		}
+		ev.Base = append(ev.Base, k)
+	}
+	holder, _ := r.NetworkInstanceRIB("DEFAULT")
+	msgCh := make(chan *spb.GetResponse)
+	stop := make(chan struct{})
+	fin := make(chan error, 1)
+	go func() { fin <- holder.GetRIB(map[spb.AFTType]bool{spb.AFTType_ALL: true}, msgCh, stop) }()
+	take := func() (bool, error) {
+		select {
+		case m := <-msgCh:
+			for _, e := range m.GetEntry() {
+				ev.Got = append(ev.Got, snapKey(e))
+			}
+			return true, nil
+		case err := <-fin:
+			return false, err
+		case <-time.After(15 * time.Second):
+			return false, fmt.Errorf("hang: the Get produced nothing for 15 s (blocked: %v)", blockedInRib())
+		}
+	}
+	// the Get is under way (the producer holds what it holds while it offers the second response)
+	if ok, err := take(); !ok {
+		ev.Failed = fmt.Sprintf("the Get ended before its first response: %v", err)
+		return ev
+	}
+	wdone := make(chan string, 1)
+	go func() {
+		for i, k := range v {
+			if _, fails, err := r.AddEntry("DEFAULT", snapOp(100+uint64(i), k)); err != nil || len(fails) != 0 {
+				wdone <- fmt.Sprintf("install of %s failed: %v %d", k, err, len(fails))
+				return
+			}
+		}
+		wdone <- ""
+	}()
+	// a slow consumer: the writer has time to queue up behind whatever the producer holds
+	for {
+		time.Sleep(2 * time.Millisecond)
+		ok, err := take()
+		if !ok {
+			if err != nil {
+				ev.Failed = fmt.Sprint(err)
+			}
+			break
+		}
+	}
+	select {
+	case msg := <-wdone:
+		if msg != "" && ev.Failed == "" {
+			ev.Failed = msg
+		}
+	case <-time.After(15 * time.Second):
+		if ev.Failed == "" {
+			ev.Failed = fmt.Sprintf("hang: the installs issued during the Get did not return after it (blocked: %v)", blockedInRib())
+		}
+	}
+	sort.Strings(ev.Got)
+	return ev
+}
